@@ -395,3 +395,80 @@ Qed.
 Theorem encrypt_ex_bad_length (NO : numops) (P : point NO) pc m :
   len_ok m = false -> do_encrypt_ex NO P pc m = ExErr.
 Proof. intros Hl. unfold do_encrypt_ex. rewrite Hl. reflexivity. Qed.
+
+(* ---------------- fixed point-size encryption ---------------- *)
+(* sm2_do_encrypt_fixlen: the result is the standard's ciphertext for a nonce of the stream whose
+   C1 has exactly the requested DER size (68, 69 or 70) *)
+Lemma fix_loop_sound fuel trys P m psize en c rest :
+  fix_loop ZOps fuel trys P m psize en = Some (c, rest) ->
+  exists used kb, en = used ++ kb :: rest /\
+    1 <= le_to_Z kb < n /\ point_der_len ZOps (sm2_mulG ZOps (le_to_Z kb)) = psize /\
+    std_kdf_zero P m (le_to_Z kb) = false /\ c = std_ct P m (le_to_Z kb).
+Proof.
+  revert trys en. induction fuel as [|f IH]; intros trys en H; cbn [fix_loop] in H; [discriminate|].
+  destruct (rand_k en) as [[k en1]|] eqn:Ek; [|discriminate].
+  unfold rand_k in Ek.
+  destruct (rand_k_loop_sound _ _ _ _ Ek) as (used & b & -> & Hkb & Hrng & _). subst k.
+  destruct trys as [|t]; [discriminate|].
+  destruct (N.eqb (point_der_len ZOps (sm2_mulG ZOps (le_to_Z b))) psize) eqn:Ep.
+  - rewrite enc_try_spec in H. destruct (std_kdf_zero P m (le_to_Z b)) eqn:Ez.
+    + destruct (IH _ _ H) as (used2 & kb & -> & Hk & Hp & Hz & Hc).
+      exists (used ++ b :: used2), kb. rewrite <- app_assoc. cbn [app]. repeat split; try assumption; lia.
+    + apply Some_inj in H. injection H as <- <-. exists used, b.
+      apply N.eqb_eq in Ep. repeat split; try assumption; try lia.
+  - destruct (IH _ _ H) as (used2 & kb & -> & Hk & Hp & Hz & Hc).
+    exists (used ++ b :: used2), kb. rewrite <- app_assoc. cbn [app]. repeat split; try assumption; lia.
+Qed.
+
+Theorem encrypt_fixlen_sound P m psize en c rest :
+  do_encrypt_fixlen ZOps P m psize en = Some (c, rest) ->
+  (psize = 68 \/ psize = 69 \/ psize = 70)%N /\ (1 <= length m <= 255)%nat /\
+  exists used kb, en = used ++ kb :: rest /\
+    1 <= le_to_Z kb < n /\ point_der_len ZOps (sm2_mulG ZOps (le_to_Z kb)) = psize /\
+    std_kdf_zero P m (le_to_Z kb) = false /\ c = std_ct P m (le_to_Z kb).
+Proof.
+  unfold do_encrypt_fixlen. destruct (len_ok m) eqn:El; cbn [negb]; [|discriminate].
+  destruct (N.eqb psize 68 || N.eqb psize 69 || N.eqb psize 70) eqn:Ep; [|discriminate].
+  intros H. split.
+  - apply orb_true_iff in Ep. destruct Ep as [Ep|Ep]; [apply orb_true_iff in Ep; destruct Ep as [Ep|Ep]|];
+      apply N.eqb_eq in Ep; lia.
+  - split; [unfold len_ok, lenN in El; lia|]. eapply fix_loop_sound, H.
+Qed.
+
+Section MoreAnyOps.
+  Variable NO : numops.
+  (* sm2_ciphertext_print succeeds only on the canonical encoding (same parse as sm2_decrypt) *)
+  Theorem ciphertext_print_strict a :
+    bytes_ok a = true -> ciphertext_print_ok a = true -> exists c, a = ct_to_der c.
+  Proof.
+    intros Hok H. unfold ciphertext_print_ok in H.
+    destruct (ct_from_der a) as [[c rest]|] eqn:E; [|discriminate]. destruct rest; [|discriminate].
+    destruct (ct_der_canonical _ _ _ Hok E) as (Eq & _). rewrite app_nil_r in Eq. exists c. exact Eq.
+  Qed.
+
+  (* size queries (out == NULL) answer the maximum for exactly the buffer states that finish accepts *)
+  Theorem encrypt_finish_query_spec chunks :
+    encrypt_finish_query chunks =
+    if ((1 <=? lenN (concat chunks)) && (lenN (concat chunks) <=? 255))%N then Some 366%N else None.
+  Proof.
+    unfold encrypt_finish_query. rewrite buf_updates by (cbn; lia). cbn [app].
+    destruct (lenN (concat chunks) <=? 255)%N eqn:E1.
+    - replace (255 <? lenN (concat chunks))%N with false by lia.
+      destruct (lenN (concat chunks) =? 0)%N eqn:E0.
+      + replace (1 <=? lenN (concat chunks))%N with false by lia. reflexivity.
+      + replace (1 <=? lenN (concat chunks))%N with true by lia. reflexivity.
+    - rewrite andb_false_r. reflexivity.
+  Qed.
+  Theorem decrypt_finish_query_spec chunks :
+    decrypt_finish_query chunks =
+    if ((45 <=? lenN (concat chunks)) && (lenN (concat chunks) <=? 366))%N then Some 255%N else None.
+  Proof.
+    unfold decrypt_finish_query. rewrite buf_updates by (cbn; lia). cbn [app].
+    destruct (lenN (concat chunks) <=? 366)%N eqn:E1.
+    - replace (366 <? lenN (concat chunks))%N with false by lia.
+      destruct (lenN (concat chunks) <? 45)%N eqn:E0.
+      + replace (45 <=? lenN (concat chunks))%N with false by lia. reflexivity.
+      + replace (45 <=? lenN (concat chunks))%N with true by lia. reflexivity.
+    - rewrite andb_false_r. reflexivity.
+  Qed.
+End MoreAnyOps.
